@@ -10,6 +10,8 @@ QUICK = [
     ('h_sc1_s12', 'deep history owned by one region of a parallel, T=1 light'),
     ('h_sc1e_s1', 'event-less selection + late binding'), ('h_sc1e_s4', 'event-less + late, history'), ('h_sc1e_s6', 'event-less + late, finals'),
     ('h_sc2r_s3', 'two transitions in different regions of a parallel state'),
+    ('h_sc1i_s1', 'reader-built root (never in the configuration), compound'), ('h_sc1i_s3', 'reader-built root, parallel'), ('h_sc1i_s4', 'reader-built root, history'),
+    ('h_sc1i_s6', 'reader-built root, finals'), ('h_sc1i_s7', 'reader-built root, parallel with finals'),
 ]
 THOROUGH_EXTRA = [
     ('h_sc1f_s3', 'T=1 full'), ('h_sc1f_s7', 'T=1 full'), ('h_sc1f_s8', 'T=1 full'), ('h_sc1f_s10', 'T=1 full'), ('h_sc1f_s11', 'T=1 full'),
@@ -23,6 +25,7 @@ BOUNDS = {'states': '<= 11 (13 catalogue shapes: nesting <= 4, <= 2 parallel sta
 ASSUME = [
     'documents satisfy Conformant(M) of DESIGN.md Appendix A (legal state specifications, history targets stand for their parent)',
     'datamodel replaced by the logging stub VDm (guards are solver-chosen values true/false/error; content bodies only log)',
+    'the <scxml> element is state 1; two kinds of root are explored: entered at start-up (external initial transition) and never entered (internal initial transition, which is what the XML and binary readers build): h_sc1i_*, h_start_all, h_exit',
     'pre-state is an arbitrary legal configuration with an arbitrary legal history record (inductive mode); the history invariant is re-established (obligation 102)',
     'std containers modelled (Vec, HashMap as association list with arbitrary stable iteration order, Mutex with holder tracking)',
 ]
